@@ -43,7 +43,7 @@ variable (env : Env) (mem : Memory.SharedMemory)
 abbrev frame : IState := IState.init code input gasLimit isStatic spec target caller callValue env mem
 
 theorem frame_inv (ha : Admissible code input gasLimit spec env mem) :
-    Inv (frame code input gasLimit isStatic spec target caller callValue env mem)
+    InvC (Jump.pad code) code.length (frame code input gasLimit isStatic spec target caller callValue env mem)
     ∧ Proofs.Interp.measure (frame code input gasLimit isStatic spec target caller callValue env mem) = gasLimit :=
   init_inv code input gasLimit isStatic spec target caller callValue env mem
     ha.bytes ha.codeLen ha.inputLen ha.gasLt ha.envOk ha.memFresh
@@ -58,7 +58,7 @@ include ho
 /-- **never panics, never outside a buffer**: for every fuel, the loop never returns a fault -/
 theorem no_panic_legacy (ha : Admissible code input gasLimit spec env mem) (fuel : Nat) (f : Fault) :
     (run o fuel (frame code input gasLimit isStatic spec target caller callValue env mem) h0).1 ≠ .fault f := by
-  have hs := run_safe o ho fuel _ h0 (frame_inv code input gasLimit isStatic spec target caller callValue env mem ha).1
+  have hs := run_safe _ _ o ho fuel _ h0 (frame_inv code input gasLimit isStatic spec target caller callValue env mem ha).1
   intro e; rw [e] at hs; exact hs
 
 /-- **terminates**: `gas_limit + 1` instructions of fuel always suffice (every continuing instruction and every
@@ -66,7 +66,7 @@ re-entry of a child result lowers `gas remaining + memory cost paid` by at least
 theorem run_terminates (ha : Admissible code input gasLimit spec env mem) (fuel : Nat) (hf : gasLimit < fuel) :
     (run o fuel (frame code input gasLimit isStatic spec target caller callValue env mem) h0).1 ≠ .outOfFuel := by
   obtain ⟨hi, hm⟩ := frame_inv code input gasLimit isStatic spec target caller callValue env mem ha
-  have hs := run_safe o ho fuel _ h0 hi
+  have hs := run_safe _ _ o ho fuel _ h0 hi
   intro e; rw [e] at hs
   have : fuel ≤ Proofs.Interp.measure _ := hs
   omega
@@ -77,7 +77,7 @@ theorem ends_within_gas (ha : Admissible code input gasLimit spec env mem) (fuel
     ∃ r out s', (run o fuel (frame code input gasLimit isStatic spec target caller callValue env mem) h0).1
         = .done r out s' ∧ s'.gas.remaining ≤ gasLimit := by
   obtain ⟨hi, hm⟩ := frame_inv code input gasLimit isStatic spec target caller callValue env mem ha
-  have hs := run_safe o ho fuel _ h0 hi
+  have hs := run_safe _ _ o ho fuel _ h0 hi
   cases hr : (run o fuel (frame code input gasLimit isStatic spec target caller callValue env mem) h0).1 with
   | done r out s' =>
     rw [hr] at hs
@@ -99,16 +99,16 @@ abbrev Reachable (s : IState) (h : η) : Prop :=
 theorem pc_in_bounds (ha : Admissible code input gasLimit spec env mem) {s : IState} {h : η}
     (hr : Reachable o h0 code input gasLimit isStatic spec target caller callValue env mem s h) :
     s.pc < s.code.length ∧ s.code = Jump.pad code :=
-  ⟨(reach_inv o ho (frame_inv code input gasLimit isStatic spec target caller callValue env mem ha).1 hr).1.pc,
-   (reach_inv o ho (frame_inv code input gasLimit isStatic spec target caller callValue env mem ha).1 hr).2.2.1⟩
+  ⟨(reach_inv _ _ o ho (frame_inv code input gasLimit isStatic spec target caller callValue env mem ha).1 hr).1.1.pc,
+   (reach_inv _ _ o ho (frame_inv code input gasLimit isStatic spec target caller callValue env mem ha).1 hr).1.2.1⟩
 
 /-- falling off the end of the code executes the STOP of the 33-byte zero padding -/
 theorem falls_off_end_stops (ha : Admissible code input gasLimit spec env mem) {s : IState} {h : η}
     (hr : Reachable o h0 code input gasLimit isStatic spec target caller callValue env mem s h)
     (hend : code.length ≤ s.pc) :
     step s = .halt .Stop [] { s with pc := s.pc + 1 } := by
-  have hri := reach_inv o ho (frame_inv code input gasLimit isStatic spec target caller callValue env mem ha).1 hr
-  exact step_in_padding hri.1 (by rw [hri.2.2.2]; exact hend)
+  have hri := reach_inv _ _ o ho (frame_inv code input gasLimit isStatic spec target caller callValue env mem ha).1 hr
+  exact step_in_padding hri.1.1 (by rw [hri.1.2.2]; exact hend)
 
 /-- the instruction in a reachable state, whatever the host answers, is not the fault `f` -/
 def StepFaults (s : IState) (f : Fault) : Prop :=
@@ -117,8 +117,8 @@ def StepFaults (s : IState) (f : Fault) : Prop :=
 theorem step_never_faults (ha : Admissible code input gasLimit spec env mem) {s : IState} {h : η}
     (hr : Reachable o h0 code input gasLimit isStatic spec target caller callValue env mem s h) (f : Fault) :
     ¬ StepFaults s f := by
-  have hi := (reach_inv o ho (frame_inv code input gasLimit isStatic spec target caller callValue env mem ha).1 hr).1
-  have hg := step_good hi
+  have hi := (reach_inv _ _ o ho (frame_inv code input gasLimit isStatic spec target caller callValue env mem ha).1 hr).1
+  have hg := step_good _ _ s hi
   rintro (e | ⟨op, k, r, e, hr, ek⟩)
   · rw [e] at hg
     cases hg with
@@ -138,7 +138,7 @@ theorem stack_index_ok (ha : Admissible code input gasLimit spec env mem) {s : I
     (hr : Reachable o h0 code input gasLimit isStatic spec target caller callValue env mem s h) :
     ¬ StepFaults s .oobStack ∧ s.stack.length ≤ 1024 :=
   ⟨step_never_faults o ho h0 code input gasLimit isStatic spec target caller callValue env mem ha hr _,
-   (reach_inv o ho (frame_inv code input gasLimit isStatic spec target caller callValue env mem ha).1 hr).1.stack⟩
+   (reach_inv _ _ o ho (frame_inv code input gasLimit isStatic spec target caller callValue env mem ha).1 hr).1.1.stack⟩
 
 /-- **`memory_index_ok`**: every memory read / write happens inside the context, after a `resize_memory!` that
 covers it; and `resize_memory!` never reaches the `Vec` capacity panic -/
@@ -155,14 +155,14 @@ theorem gas_decreases (ha : Admissible code input gasLimit spec env mem) {s : IS
     {s' : IState} {h' : η} (hstep : resolve o (step s) h = (.next s', h')) :
     s'.gas.remaining + 1 ≤ s.gas.remaining :=
   step_next_gas o ho
-    (reach_inv o ho (frame_inv code input gasLimit isStatic spec target caller callValue env mem ha).1 hr).1 h h' hstep
+    (reach_inv _ _ o ho (frame_inv code input gasLimit isStatic spec target caller callValue env mem ha).1 hr).1.1 h h' hstep
 
 /-- the meter never shows more than the limit -/
 theorem gas_within_limit (ha : Admissible code input gasLimit spec env mem) {s : IState} {h : η}
     (hr : Reachable o h0 code input gasLimit isStatic spec target caller callValue env mem s h) :
     s.gas.remaining ≤ gasLimit := by
   obtain ⟨hi, hm⟩ := frame_inv code input gasLimit isStatic spec target caller callValue env mem ha
-  have h1 := (reach_inv o ho hi hr).2.1
+  have h1 := (reach_inv _ _ o ho hi hr).2
   have h2 : Proofs.Interp.measure s = s.gas.remaining + mcost s := rfl
   omega
 
